@@ -12,6 +12,7 @@ thorough), not proved.
 import Pastel.RealInst
 import Pastel.Model.Format
 import Pastel.Model.Parser
+import Pastel.Props.C01
 
 namespace Pastel.C02
 open Pastel
@@ -82,5 +83,82 @@ theorem alpha_elision_examples :
     Fmt.hexString (fromRgba8 255 0 119 1.0) true = "#ff0077" ∧
     Fmt.hexString (fromRgba8 255 0 119 0.5) true = "#ff007780" := by
   decide +kernel
+
+
+/-! ### Print → parse, hex notation: a theorem about the formatter and the parser together -/
+
+section hexrt
+open Pastel.P
+
+/-- A string without whitespace at either end is untouched by `trim`. -/
+theorem trim_id (a : Char) (mid : List Char) (z : Char) (ha : isWhitespace a = false) (hz : isWhitespace z = false) :
+    trim (a :: (mid ++ [z])) = a :: (mid ++ [z]) := by
+  unfold trim trimStart
+  have h1 : (a :: (mid ++ [z])).dropWhile isWhitespace = a :: (mid ++ [z]) := by
+    rw [List.dropWhile_cons]; simp [ha]
+  rw [h1]
+  have h2 : (a :: (mid ++ [z])).reverse = z :: (mid.reverse ++ [a]) := by simp
+  rw [h2, List.dropWhile_cons]
+  simp [hz]
+
+theorem hexDigit_not_ws : ∀ n : Fin 16, isWhitespace (Fmt.hexDigit n.val) = false := by decide +kernel
+
+/-- **Print → parse for the hex notation, every opaque 8-bit colour at once**: the six digits
+that `{:02x}{:02x}{:02x}` prints for the bytes `(r, g, b)`, prefixed by `#`, are accepted by
+`parse_color` and denote exactly `from_rgb(r, g, b)`. -/
+theorem hex_print_parse (r g b : UInt8) :
+    parseColor (['#', Fmt.hexDigit (r.toNat / 16 % 16), Fmt.hexDigit (r.toNat % 16),
+      Fmt.hexDigit (g.toNat / 16 % 16), Fmt.hexDigit (g.toNat % 16),
+      Fmt.hexDigit (b.toNat / 16 % 16), Fmt.hexDigit (b.toNat % 16)]) = some (fromRgba8 r g b 1.0) := by
+  have hr := hex2_roundtrip ⟨r.toNat, r.toNat_lt⟩
+  have hg := hex2_roundtrip ⟨g.toNat, g.toNat_lt⟩
+  have hb := hex2_roundtrip ⟨b.toNat, b.toNat_lt⟩
+  have dr := hex2_digits ⟨r.toNat, r.toNat_lt⟩
+  have dg := hex2_digits ⟨g.toNat, g.toNat_lt⟩
+  have db := hex2_digits ⟨b.toNat, b.toNat_lt⟩
+  simp only at hr hg hb dr dg db
+  unfold parseColor parseColorWith
+  have htrim : trim ['#', Fmt.hexDigit (r.toNat / 16 % 16), Fmt.hexDigit (r.toNat % 16),
+      Fmt.hexDigit (g.toNat / 16 % 16), Fmt.hexDigit (g.toNat % 16),
+      Fmt.hexDigit (b.toNat / 16 % 16), Fmt.hexDigit (b.toNat % 16)] = _ :=
+    trim_id '#' [Fmt.hexDigit (r.toNat / 16 % 16), Fmt.hexDigit (r.toNat % 16),
+      Fmt.hexDigit (g.toNat / 16 % 16), Fmt.hexDigit (g.toNat % 16),
+      Fmt.hexDigit (b.toNat / 16 % 16)] (Fmt.hexDigit (b.toNat % 16)) (by decide)
+      (hexDigit_not_ws ⟨b.toNat % 16, by omega⟩)
+  simp only [List.cons_append, List.nil_append] at htrim
+  rw [htrim]
+  unfold altList allConsuming
+  rw [C01.hex6_meaning _ _ _ _ _ _ (by
+    intro x hx
+    simp only [List.mem_cons, List.mem_nil_iff, or_false] at hx
+    rcases hx with rfl | rfl | rfl | rfl | rfl | rfl
+    · exact dr.1
+    · exact dr.2
+    · exact dg.1
+    · exact dg.2
+    · exact db.1
+    · exact db.2)]
+  simp only [hr, hg, hb, UInt8.ofNat_toNat]
+
+
+theorem hexString_opaque (c : Color Float) (h : ((toRgba8 c).alpha == 1.0) = true) :
+    (Fmt.hexString c true).toList =
+      ['#', Fmt.hexDigit ((toRgba8 c).r.toNat / 16 % 16), Fmt.hexDigit ((toRgba8 c).r.toNat % 16),
+        Fmt.hexDigit ((toRgba8 c).g.toNat / 16 % 16), Fmt.hexDigit ((toRgba8 c).g.toNat % 16),
+        Fmt.hexDigit ((toRgba8 c).b.toNat / 16 % 16), Fmt.hexDigit ((toRgba8 c).b.toNat % 16)] := by
+  unfold Fmt.hexString Fmt.hex2
+  simp only [h, if_true, String.toList_append, String.toList_ofList]
+  rfl
+
+/-- **What pastel prints in hex for an opaque colour, pastel reads back as exactly the 8-bit
+colour it printed** — for every colour. -/
+theorem hexString_parses_back (c : Color Float) (h : ((toRgba8 c).alpha == 1.0) = true) :
+    parseColor (Fmt.hexString c true).toList =
+      some (fromRgba8 (toRgba8 c).r (toRgba8 c).g (toRgba8 c).b 1.0) := by
+  rw [hexString_opaque c h]
+  exact hex_print_parse _ _ _
+
+
+end hexrt
 
 end Pastel.C02
